@@ -44,7 +44,8 @@ def property_fails_on(op, impl_line, model_line):
     if w[0] == "idle" and impl_line.startswith("dat="):
         dat, mem = impl_line[4:].split(" mem=")
         if dat != mem:
-            return (KEY_F6 if len(dat) > len(mem) else "idle-file-differs",
+            return (KEY_F6 if len(dat) > len(mem) else "created-object-not-persisted" if len(dat) < len(mem)
+                    else "idle-file-differs",
                     "daemon idle but nsqd.dat=%s while live state=%s" % (dat, mem))
     return None
 
@@ -236,7 +237,7 @@ def run(ctx):
             res = run_harness(ctx, binp, "corpus", {"VERIF_SCRIPT": ",".join(scripts)}, 300)
             judge(ctx, res, "corpus", corr_broken)
             ctx.corr["corpus_scripts"] = [os.path.relpath(s, ROOT) for s in scripts]
-        n = ctx.budget(48, 2400)
+        n = ctx.budget(32, 2400)
         res = run_harness(ctx, binp, "generated", {"VERIF_N": n, "VERIF_META_KMAX": ctx.budget(3, 5)},
                           ctx.budget(240, 2400))
         judge(ctx, res, "generated", corr_broken)
@@ -245,7 +246,7 @@ def run(ctx):
         second_instance_binary(ctx, corr_broken)
         # observation (never a violation): documents that are a per-topic cut but not a global cut, on the real code
         rc, out = ctx.run_cmd([binp, "-test.run", "^TestVerifMetaCutObservation$", "-test.count=1", "-test.timeout=120s"],
-                              timeout=150, env={"VERIF_CUT_PAIRS": ctx.budget(300, 1500), "VERIF_CUT_MS": ctx.budget(1500, 8000)})
+                              timeout=150, env={"VERIF_CUT_PAIRS": ctx.budget(200, 1500), "VERIF_CUT_MS": ctx.budget(1000, 8000)})
         obs = [l for l in out.splitlines() if l.startswith("OBSERVATION")]
         if obs:
             ctx.corr["observation_global_cut"] = obs[0]
